@@ -292,7 +292,7 @@ fn run_break<F: boxworks::FontRepo>(
     bs: &BreakSetup,
     h_list: &[ds::Horizontal],
     case_json: &dyn Fn() -> Value,
-    strict: bool,
+    tag: &str,
 ) -> BreakOutcome {
     let mut out = BreakOutcome::default();
     let list0 = list_to_m(h_list);
@@ -415,19 +415,19 @@ fn run_break<F: boxworks::FontRepo>(
             Some(MNode::Penalty(_)) => "penalty",
             Some(MNode::Disc { pre, post, replace }) => {
                 if !pre.is_empty() {
-                    obs.count("disc_break_with_pre");
+                    obs.count(&format!("{tag}:disc_break_with_pre"));
                 }
                 if !post.is_empty() {
-                    obs.count("disc_break_with_post");
+                    obs.count(&format!("{tag}:disc_break_with_post"));
                 }
                 if *replace > 0 {
-                    obs.count("disc_break_with_replaced_nodes");
+                    obs.count(&format!("{tag}:disc_break_with_replaced_nodes"));
                 }
                 "disc"
             }
             _ => "other",
         };
-        obs.count(&format!("break_at_{kind}"));
+        obs.count(&format!("{tag}:break_at_{kind}"));
     }
 
     // ---- the vertical list
@@ -557,13 +557,13 @@ fn run_break<F: boxworks::FontRepo>(
                 "open_finding_model_no_879": render_lines(&dev_items),
             }),
         );
-        if !strict && trigger && dev_items == real_items {
+        if trigger && dev_items == real_items {
             obs.known(F_KEPT, d);
             obs.add("known_kept_discardables", would_prune as u64);
         } else {
             // With the open finding's trigger present the conservation problems are a mix of the
             // finding and whatever else happened: name the case by what it is.
-            let sig = if !strict && trigger {
+            let sig = if trigger {
                 "differs-from-tex-and-from-the-open-finding-model"
             } else {
                 cons.problems.first().map(|p| p.0).unwrap_or("content")
@@ -614,9 +614,9 @@ fn text_case(rng: &mut Rng, obs: &mut Obs, fixed: Option<(TextSetup, BreakSetup)
     obs.count("texts_checked");
     let case_json = || ts.json();
     let o = if bs.hyphenation {
-        run_break(obs, &ctx.font_repo, &ctx.hyphenator, &bs, &list, &case_json, false)
+        run_break(obs, &ctx.font_repo, &ctx.hyphenator, &bs, &list, &case_json, "text")
     } else {
-        run_break(obs, &ctx.font_repo, &NoHyphenation, &bs, &list, &case_json, false)
+        run_break(obs, &ctx.font_repo, &NoHyphenation, &bs, &list, &case_json, "text")
     };
     if o.hyphenated {
         obs.count("paragraphs_hyphenated");
@@ -648,7 +648,7 @@ fn list_case(rng: &mut Rng, obs: &mut Obs, fixed: Option<(Vec<ds::Horizontal>, B
     };
     let rendered = model::render_list(&list_to_m(&list));
     let case_json = || json!({"hand_built_list": rendered});
-    let o = run_break(obs, &SynthFont, &NoHyphenation, &bs, &list, &case_json, false);
+    let o = run_break(obs, &SynthFont, &NoHyphenation, &bs, &list, &case_json, "list");
     obs.count("lists_checked");
     if o.lines >= 2 {
         obs.nontrivial_hash(o.canonical);
@@ -875,13 +875,18 @@ impl Monitor for M {
             ("list_paragraphs_multi_line", 120_000 * m),
             ("paragraphs_hyphenated", 25_000 * m),
             ("second_pass_reached", 150_000 * m),
-            ("break_at_glue", 300_000 * m),
-            ("break_at_penalty", 120_000 * m),
-            ("break_at_kern", 5_000 * m),
-            ("break_at_disc", 200_000 * m),
-            ("disc_break_with_pre", 150_000 * m),
-            ("disc_break_with_post", 70_000 * m),
-            ("disc_break_with_replaced_nodes", 70_000 * m),
+            ("text:break_at_glue", 100_000 * m),
+            ("text:break_at_disc", 20_000 * m),
+            ("text:disc_break_with_pre", 15_000 * m),
+            ("text:disc_break_with_post", 1_000 * m),
+            ("text:disc_break_with_replaced_nodes", 1_000 * m),
+            ("list:break_at_glue", 100_000 * m),
+            ("list:break_at_penalty", 100_000 * m),
+            ("list:break_at_kern", 5_000 * m),
+            ("list:break_at_disc", 150_000 * m),
+            ("list:disc_break_with_pre", 100_000 * m),
+            ("list:disc_break_with_post", 60_000 * m),
+            ("list:disc_break_with_replaced_nodes", 60_000 * m),
             ("discardables_following_chosen_breaks", 200_000 * m),
             ("broken_penalty_lines", 200_000 * m),
             ("interline_penalty_nodes", 500_000 * m),
